@@ -69,7 +69,7 @@ LEVEL_TEXT = ("Kernel-checked Lean theorems over ALL states and ALL event lists 
               "tied to the real code by hundreds (thorough: thousands) of dsim scenarios over the public async API in virtual time whose every answer "
               "(write results, completion times, reader contents, in half of the cases the full datagram trace) is predicted by the compiled model, "
               "and an oracle re-checks timing, blocking under withheld acknowledgements and the reader's final contents on the implementation's "
-              "answers alone. The property holds on the unchanged tree.")
+              "answers alone (a late TRANSIENT_LOCAL joiner must receive exactly the newest `depth` samples per instance the writer holds). The property holds.")
 LEVEL_NOTE = ("Trusted: Lean kernel; Model/WriterEnt.lean (writer entity + RTPS stateful writer, unfragmented samples, keys as Nat, times as ns) and "
               "Model/WrtWorld.lean (worker schedule, reader endpoint, dsim network and fault rules - used only to pick the event list a scenario "
               "produces, no theorem depends on it); the dsim simulator and its scenario interpreter (one extension op `late-release`, not used by "
@@ -79,4 +79,3 @@ LEVEL_NOTE = ("Trusted: Lean kernel; Model/WriterEnt.lean (writer entity + RTPS 
 TECHNIQUE = "Lean 4 invariant / per-step theorems over all event lists of the writer model + differential correspondence with the real stack in the deterministic simulator dsim"
 DESIGN_REF = "DESIGN.md section 5 C27"
 LEAN_MODULES = ["DustVerif.Props.C27"]
-CLAIMED = False   # being re-synchronised with the RTPS repairs now in /repo (model predicts full datagram traces)
